@@ -501,10 +501,10 @@ fn main() {
             explore_warm(&ck, 2, 3, 5, 2_000_000);
             explore_warm(&ck, 3, 1, 4, 2_000_000);
             explore_warm(&ck, 3, 2, 3, 2_000_000);
-            explore_cold(&ck, 2, 1, true, 3, 60_000);
-            explore_cold(&ck, 2, 2, true, 2, 60_000);
-            explore_cold(&ck, 3, 1, true, 2, 60_000);
-            explore_cold(&ck, 2, 1, false, 1, 30_000);
+            explore_cold(&ck, 2, 1, true, 3, 6_000);
+            explore_cold(&ck, 2, 2, true, 2, 6_000);
+            explore_cold(&ck, 3, 1, true, 2, 6_000);
+            explore_cold(&ck, 2, 1, false, 1, 3_000);
         }
     }
 
